@@ -246,3 +246,84 @@ def build(chk: Check) -> None:
         bad_spec, _ = canonical_consistency(name, use_real=False)
         chk.struct(f"canonical_consistency.of_the_contract[{name}]", not bad_spec, F, witness=bad_spec[:3], lemma=True, bounded=True,
                    note="the postcondition itself (product over flipped nodes) is consistent with the canonical expansion")
+    model_level(chk)
+
+
+# ---------------------------------------------------------------------------------------------------------------------
+# model level: chains that share a coefficient IN THE FORMULATED MODEL (bounded; one builder, naming flags changed between calls)
+# ---------------------------------------------------------------------------------------------------------------------
+NAMING_HISTORIES = (((False, True),), ((False, True), (True, True)), ((True, True), (False, True)), ((False, True), (True, False), (False, True)))
+
+
+def model_level_pairs(name: str, formalism: str, history) -> list[dict]:
+    """Formulate on ONE builder after each naming-flag setting of `history`; in the last model, for every two chains whose components
+    carry the same coefficient symbol: the chains differ exactly by reversed daughter helicities at some nodes, and the ratio of their
+    constant factors is the product of parity_prefactor over exactly those nodes (the flipped nodes are read off the two transitions,
+    not off the name map)."""
+    import ampform
+
+    r = zoo.reaction(name, formalism)
+    b = ampform.get_builder(r)
+    model = None
+    for parent_hel, child_hel in history:
+        b.naming.insert_parent_helicities = parent_hel
+        b.naming.insert_child_helicities = child_hel
+        model = b.formulate()
+    groups: dict = {}
+    for t in r.transitions:
+        comp = model.components.get(f"A_{{{b.naming.generate_amplitude_name(t)}}}")
+        if comp is None:
+            return [{"chain": str({i: (s.particle.name, str(s.spin_projection)) for i, s in t.states.items()}), "problem": "no component for this chain"}]
+        coeffs = sorted((s for s in comp.free_symbols if s.name.startswith("C_")), key=str)
+        if len(coeffs) != 1:
+            continue  # symmetrised sums / helicity couplings: not of the form coefficient x chain
+        sign = sp.Mul(*[f for f in sp.Mul.make_args(comp) if f.is_number])
+        groups.setdefault(coeffs[0], []).append((t, sign))
+    bad = []
+    for c, lst in groups.items():
+        ref_t, ref_sign = lst[0]
+        for t, sign in lst[1:]:
+            if t.topology != ref_t.topology:
+                bad.append({"coefficient": str(c), "problem": "chains of different topologies share a coefficient"})
+                continue
+            flipped, other = [], []
+            for n in t.topology.nodes:
+                kids = sorted(t.topology.get_edge_ids_outgoing_from_node(n))
+                h1 = [ref_t.states[k].spin_projection for k in kids]
+                h2 = [t.states[k].spin_projection for k in kids]
+                if h1 == h2:
+                    continue
+                (flipped if all(a == -b_ for a, b_ in zip(h1, h2)) else other).append(n)
+            want = 1
+            for n in flipped:
+                eta = t.interactions[n].parity_prefactor
+                want *= 1 if eta is None else eta
+            same_particles = all(ref_t.states[i].particle.name == t.states[i].particle.name for i in t.states)
+            if other or not same_particles or sp.Rational(sign) / sp.Rational(ref_sign) != sp.Rational(want):
+                bad.append({"coefficient": str(c), "naming_history": [list(h) for h in history],
+                            "chain": str({i: (s.particle.name, str(s.spin_projection)) for i, s in t.states.items()}),
+                            "reference_chain": str({i: (s.particle.name, str(s.spin_projection)) for i, s in ref_t.states.items()}),
+                            "nodes_with_reversed_daughter_helicities": flipped, "nodes_that_differ_otherwise": other,
+                            "observed_ratio": str(sp.Rational(sign) / sp.Rational(ref_sign)), "expected_ratio": str(want)})
+    return bad
+
+
+def model_level(chk: Check) -> None:
+    models.quiet()
+    names = ZOO if chk.tier == "thorough" else ["jpsi_sigmabar_sigma", "jpsi_gamma_p_pbar", "jpsi_pi0_pip_pim"]
+    for name in names:
+        for formalism in ("helicity",) if chk.tier == "quick" else ("helicity", "canonical-helicity"):
+            for history in NAMING_HISTORIES:
+                f = "hel" if formalism == "helicity" else "can"
+                tag = f"{name}/{f}/naming=" + ">".join(f"p{int(p)}c{int(c)}" for p, c in history)
+
+                def rep(_m=None, name=name, formalism=formalism, history=history):
+                    try:
+                        bad = model_level_pairs(name, formalism, history)
+                    except Exception as e:  # noqa: BLE001
+                        return {"reproduced": True, "input": {"reaction": name, "formalism": formalism, "naming_history": [list(h) for h in history]}, "observed": f"{type(e).__name__}: {e}"[:300]}
+                    return {"reproduced": bool(bad), "input": {"reaction": name, "formalism": formalism, "one builder; (insert_parent_helicities, insert_child_helicities) before each formulate()": [list(h) for h in history]},
+                            "observed": bad[:2], "expected": "chains sharing a coefficient differ by reversed daughter helicities at nodes N and by the factor prod_N eta"}
+
+                r = rep()
+                chk.struct(f"model.chains_sharing_a_coefficient_differ_by_prod_eta[{tag}]", not r["reproduced"], F, witness=r, replay=rep, bounded=True)
